@@ -3,6 +3,8 @@ package main
 import (
 	"fmt"
 	"go/ast"
+	"go/printer"
+	"path/filepath"
 	"go/token"
 	"go/types"
 	"regexp"
@@ -18,7 +20,7 @@ func init() {
 		return runCatalog(g, id, obs)
 	}
 	auxEngines["C17"] = func(g *Gen, id, tier string) auxResult {
-		return runCatalog(g, id, g.walkObligations())
+		return runCatalog(g, id, append(g.walkObligations(), g.adapterShape()...))
 	}
 	auxEngines["C04"] = func(g *Gen, id, tier string) auxResult {
 		return runCatalog(g, id, g.walkObligations())
@@ -619,4 +621,116 @@ func (g *Gen) allCallersAre(fn *ssa.Function, pred func(string) bool, depth int)
 		}
 	}
 	return found
+}
+
+// adapterShape (C17, adapters of ast/walk.go): structural obligations, decided on the syntax tree.
+//   inspector.Visit returns the receiver exactly when f(node) is true and nil otherwise;
+//   inspector.VisitMany / Field / Index return the receiver (the same callback for the whole subtree);
+//   Inspect / InspectMany hand inspector(f) to Walk / WalkMany;
+//   Preorder / PreorderMany keep a sticky flag: the callback computes `ok = ok && yield(n)` (yield is not
+//   evaluated once ok is false) and returns ok, so nothing is visited after the consumer stopped.
+func (g *Gen) adapterShape() []*catOblig {
+	pkg := g.astPackage()
+	var obs []*catOblig
+	src := func(n ast.Node) string {
+		var b strings.Builder
+		printer.Fprint(&b, g.prog.Fset, n)
+		return strings.Join(strings.Fields(b.String()), " ")
+	}
+	funcs := map[string]*ast.FuncDecl{}
+	for _, f := range pkg.Syntax {
+		if filepath.Base(g.prog.Fset.Position(f.Pos()).Filename) != "walk.go" {
+			continue
+		}
+		for _, d := range f.Decls {
+			if fd, ok := d.(*ast.FuncDecl); ok && fd.Body != nil {
+				name := fd.Name.Name
+				if fd.Recv != nil && len(fd.Recv.List) == 1 {
+					name = src(fd.Recv.List[0].Type) + "." + name
+				}
+				funcs[name] = fd
+			}
+		}
+	}
+	add := func(name, want string, ok bool, got string) {
+		ob := &catOblig{Name: "ast." + name + "/adapter-shape", Tags: []string{"C17"}, Detail: want}
+		if fd := funcs[name]; fd != nil {
+			ob.Pos = g.prog.Fset.Position(fd.Pos())
+		}
+		if ok {
+			ob.Result = "unsat"
+		} else {
+			ob.Failed = "body is: " + got
+		}
+		obs = append(obs, ob)
+	}
+	body := func(name string) string {
+		if fd := funcs[name]; fd != nil {
+			return src(fd.Body)
+		}
+		return "<missing>"
+	}
+	recvName := func(name string) string {
+		if fd := funcs[name]; fd != nil && fd.Recv != nil && len(fd.Recv.List[0].Names) == 1 {
+			return fd.Recv.List[0].Names[0].Name
+		}
+		return "?"
+	}
+	// inspector.Visit
+	{
+		r := recvName("inspector.Visit")
+		b := body("inspector.Visit")
+		p := "node"
+		if fd := funcs["inspector.Visit"]; fd != nil && len(fd.Type.Params.List) == 1 && len(fd.Type.Params.List[0].Names) == 1 {
+			p = fd.Type.Params.List[0].Names[0].Name
+		}
+		want := fmt.Sprintf("{ if %s(%s) { return %s } return nil }", r, p, r)
+		add("inspector.Visit", "Visit returns the receiver iff f(node), nil otherwise: "+want, b == want, b)
+	}
+	for _, m := range []string{"inspector.VisitMany", "inspector.Field", "inspector.Index"} {
+		r := recvName(m)
+		b := body(m)
+		want := fmt.Sprintf("{ return %s }", r)
+		add(m, "returns the receiver: "+want, b == want, b)
+	}
+	{
+		b := body("Inspect")
+		add("Inspect", "Inspect(node, f) is Walk(node, inspector(f))", b == "{ Walk(node, inspector(f)) }", b)
+		b = body("InspectMany")
+		add("InspectMany", "InspectMany(nodes, f) is WalkMany(nodes, inspector(f))", b == "{ WalkMany(nodes, inspector(f)) }", b)
+	}
+	for _, m := range []struct{ name, call, arg string }{{"Preorder", "Inspect", "node"}, {"PreorderMany", "InspectMany", "nodes"}} {
+		b := body(m.name)
+		// the names of the locals are the function's own (a renaming is not a change of shape)
+		yieldN, okN, nN, argN := "yield", "ok", "n", m.arg
+		if fd := funcs[m.name]; fd != nil {
+			if len(fd.Type.Params.List) == 1 && len(fd.Type.Params.List[0].Names) == 1 {
+				argN = fd.Type.Params.List[0].Names[0].Name
+			}
+			depth := 0
+			ast.Inspect(fd.Body, func(x ast.Node) bool {
+				switch y := x.(type) {
+				case *ast.FuncLit:
+					if len(y.Type.Params.List) == 1 && len(y.Type.Params.List[0].Names) == 1 {
+						if depth == 0 {
+							yieldN = y.Type.Params.List[0].Names[0].Name
+						} else if depth == 1 {
+							nN = y.Type.Params.List[0].Names[0].Name
+						}
+					}
+					depth++
+				case *ast.AssignStmt:
+					if y.Tok == token.DEFINE && len(y.Lhs) == 1 {
+						if id, ok := y.Lhs[0].(*ast.Ident); ok && okN == "ok" {
+							okN = id.Name
+						}
+					}
+				}
+				return true
+			})
+		}
+		want := fmt.Sprintf("{ return func(%s func(Node) bool) { %s := true %s(%s, func(%s Node) bool { %s = %s && %s(%s) return %s }) } }", yieldN, okN, m.call, argN, nN, okN, okN, yieldN, nN, okN)
+		add(m.name, "sticky stop flag: "+want, b == want, b)
+	}
+	return obs
 }
